@@ -54,7 +54,7 @@ class C09(P.Property):
     probe_names = ["scheme_" + s for s in fe.SCHEMES] + ["recreate_before_" + w for w in WORKFLOW[1:]] + [
         "recreate_before_first_search", "recreate_between_searches", "kept_object_whole_workflow", "server_restart_before_first_search",
         "server_restart_between_searches", "recreate_inside_cleanup_window", "absent_keyword", "near_miss_keyword", "nondefault_config",
-        "stall_over_60s", "decoy_service", "decoy_other_config"]
+        "stall_over_60s", "decoy_service", "decoy_other_config", "idle_connection"]
 
     def setup(self):
         world.setup_frontend()
@@ -108,7 +108,8 @@ class C09(P.Property):
             else:
                 j = rng.randrange(len(base))
                 w, cls = base[:j] + ("x" if base[j] != "x" else "y") + base[j + 1:], "near"
-            st = {"w": w, "recreate": rng.random() < 0.4, "gap": rng.choice([0, 0, 0.5, 1.5]), "restart": rng.random() < 0.12}
+            st = {"w": w, "recreate": rng.random() < 0.4, "gap": rng.choice([0, 0, 0.5, 1.5]), "restart": rng.random() < 0.12,
+                  "idle": rng.choice([0] * 9 + [25, 70])}  # idle time before the search on whatever connection is open
             steps.append(st)
         recreate = [rng.random() < 0.5 for _ in range(5)]  # before gen_key, encrypt, upload_config, upload_index, first search
         if rng.random() < 0.15:
@@ -268,6 +269,9 @@ class C09(P.Property):
                 probes["server_restart_between_searches"] = 1
             elif st.get("recreate") or (first and knobs["recreate"][4]):
                 await recreate("recreate_before_first_search" if first else "recreate_between_searches", st.get("gap", 0))
+            if st.get("idle"):
+                probes["idle_connection"] = 1
+                await asyncio.sleep(st["idle"])
             stalled = False
             if stall and stall["search"] == si:
                 run.sim.stall_once = ("s", stall["secs"])
@@ -378,8 +382,8 @@ class C09(P.Property):
                 yield dict(plan, knobs=dict(k, db=dict(db, **{kw: ids[:-1]})))
         steps = plan["steps"]
         for i, st in enumerate(steps):
-            if st.get("recreate") or st.get("restart") or st.get("gap"):
-                yield dict(plan, steps=steps[:i] + [dict(st, recreate=False, restart=False, gap=0)] + steps[i + 1:])
+            if st.get("recreate") or st.get("restart") or st.get("gap") or st.get("idle"):
+                yield dict(plan, steps=steps[:i] + [dict(st, recreate=False, restart=False, gap=0, idle=0)] + steps[i + 1:])
 
     def finding_shape(self, plan, v):
         k = plan["knobs"]
